@@ -1345,4 +1345,46 @@ theorem exU_rightTri_day_ok : ∃ out, makeRightTriangleU Properties.C04.exU non
       rcases he with rfl | rfl | rfl | rfl | rfl | rfl <;>
         rcases ho with rfl | rfl | rfl | rfl | rfl | rfl <;> revert hgt <;> decide +kernel
 
+/-! ### a requested lag that lands on an observed date: `make_right_triangle` on incremental input raises -/
+
+/-- **rightTri_incremental_collision_raises**: on a complete `IncrementalCell` triangle (canonical metadata; unit month or
+day; distinct requested lags `ls`; different requested lags beyond a cell's lag give different dates — `hinj`, needed so that
+`to_incremental` of the new cells returns; no `CumulativeCell(...)` call raises — `hcells`), `make_right_triangle(ls, unit)`
+RAISES `ValueError` as soon as a requested lag `l` that exceeds the lag of every observation of the row of `x` (so a cell is
+created on that row) lands on a date `ev` that is not after `x`'s evaluation date. This is the non-monotone case: a fractional
+day lag is floored by `date + timedelta` (`2020-01-31 + timedelta(29.5) = 2020-02-29`, lag 29.5 > 29). Mechanism as for
+`rightDiag_incremental_historic_raises` (confirmed on /repo: `ValueError: evaluation_date must be >
+prev_evaluation_date`): every stage up to `to_incremental` returns, `_fix_prev_evaluation_date` re-links the first new cell
+of the row to the observed right-edge date and the `IncrementalCell` constructor refuses it. (On CUMULATIVE input the same
+request returns and re-creates the occupied coordinate — see `LagMonotone`.) -/
+theorem rightTri_incremental_collision_raises {t : List Cell} {ls : List Rat} {u : LagUnit} (hu : u ≠ .timedelta)
+    (hC : Properties.C04.Complete t) (hinc : Triangle.isIncremental t = true) (hcanon : ∀ c ∈ t, c.md.Canon)
+    (hnd : ls.Nodup)
+    (hinj : ∀ e ∈ t, ∀ l1 ∈ ls, ∀ l2 ∈ ls, l1 > e.devLag u → l2 > e.devLag u →
+      addDevLag e.pe l1 u = addDevLag e.pe l2 u → l1 = l2)
+    (hcells : ∀ e ∈ t, ∀ l ∈ ls, l > e.devLag u → ∀ ev, addDevLag e.pe l u = .ok ev →
+      (emptyCell e ev).datesOk = true)
+    {x : Cell} {l : Rat} {ev : Date} (hx : x ∈ t) (hl : l ∈ ls)
+    (hgt : ∀ o ∈ t, rowKey o = rowKey x → l > o.devLag u)
+    (hev : addDevLag x.pe l u = .ok ev) (hnot : ¬ x.ev < ev) :
+    makeRightTriangleU t (some ls) (some u) = .error .valueError :=
+  makeRightTriangle_error_inc_collision hu hC hinc hcanon hnd hinj hcells hx hl hgt hev hnot
+
+/-- closed instance: on `exU` (row A/2020 observed at 2020-12-31 and 2022-12-31, lags 0 and 730 days) the requested day lag
+730.5 exceeds both lags and lands on 2022-12-31 again — `make_right_triangle([730.5], "day")` raises `ValueError` -/
+theorem exU_rightTri_collision_raises :
+    makeRightTriangleU Properties.C04.exU (some [(1461 : Rat) / 2]) (some .day) = .error .valueError := by
+  refine rightTri_incremental_collision_raises (x := Properties.C04.exU[1]) (l := (1461 : Rat) / 2)
+    (ev := ⟨2022, 12, 31⟩) (by decide) Properties.C04.exU_complete rfl (by decide +kernel) (by decide +kernel) ?_ ?_
+    (List.getElem_mem _) (by simp) (by decide +kernel) (by decide +kernel) (by decide +kernel)
+  · intro e _ l1 h1 l2 h2 _ _ _
+    simp only [List.mem_cons, List.not_mem_nil, or_false] at h1 h2
+    rw [h1, h2]
+  · intro e he l hl hgt ev hev
+    simp only [List.mem_cons, List.not_mem_nil, or_false] at hl
+    subst hl
+    cases hev
+    simp only [Properties.C04.exU, List.mem_cons, List.not_mem_nil, or_false] at he
+    rcases he with rfl | rfl | rfl | rfl | rfl | rfl <;> decide +kernel
+
 end Bermuda.Properties.C15
